@@ -199,6 +199,18 @@ def main(argv=None):
     if tot["harness_errors"]:
         incon.append("%d harness errors (first: %s)" % (len(tot["harness_errors"]),
                                                        tot["harness_errors"][0]["error"]))
+        # the failing case is kept as a replay file (a harness error is a defect of the check, to be reproduced and repaired)
+        h0 = tot["harness_errors"][0]
+        try:
+            rdir = os.path.join(VERIF, "replays", prop)
+            os.makedirs(rdir, exist_ok=True)
+            rp = os.path.join(rdir, "harness-error-%s-%s.json" % (h0.get("unit"), h0.get("index")))
+            with open(rp, "w") as fh:
+                json.dump(dict(property=prop, unit=h0.get("unit"), index=h0.get("index"), params=h0.get("params"), error=h0.get("error"),
+                               traceback=h0.get("tb")), fh, indent=1)
+            print("  harness error in unit %s case %s, replay=%s\n  %s" % (h0.get("unit"), h0.get("index"), rp, (h0.get("tb") or "")[-600:].replace("\n", "\n  ")))
+        except OSError:
+            pass
     if not a.replay:
         for u in mod.UNITS:
             if u.count(a.tier) == 0:
